@@ -37,6 +37,8 @@ M = [
   "            let bytes = unsafe { slice::from_raw_parts(self.ptr, len) };\n            self.len -= len;"),
  ("C10", "null-terminated-slice-keeps-nul", "src/read/reader.rs",
   "        let val = self.split(idx)?;\n        self.skip(Self::Offset::from_u8(1))?;", "        let val = self.split(idx)?;"),
+ ("C10", "slice-empty-detaches-again (C10-1 reintroduced)", "src/read/endian_slice.rs",
+  "        self.slice = &self.slice[..0];", "        self.slice = &[];"),
  ("C18", "write_offset_at-not-recorded", "src/write/relocate.rs",
   "        self.relocate(Relocation {\n            offset,\n            size,\n            target: RelocationTarget::Section(section),\n            addend: val as i64,\n            eh_pe: None,\n        });\n        self.writer_mut().write_udata_at(offset, 0, size)",
   "        self.writer_mut().write_udata_at(offset, val as u64, size)"),
